@@ -87,6 +87,34 @@ func (s *ServiceExpr) Validate() error {
 			}
 		}
 	}
+	// The Go type generated for an error that does not use a user type is
+	// named after the error: the errors of a service that share a name must
+	// share a definition.
+	inline := make(map[string]*ErrorExpr)
+	check := func(e *ErrorExpr) {
+		if e.AttributeExpr == nil || e.Type == nil {
+			return
+		}
+		if _, ok := e.Type.(UserType); ok {
+			return
+		}
+		prev, ok := inline[e.Name]
+		if !ok {
+			inline[e.Name] = e
+			return
+		}
+		if !Equal(prev.Type, e.Type) {
+			verr.Add(s, "error %q is defined with type %s and with type %s, use a user type or different error names", e.Name, prev.Type.Name(), e.Type.Name())
+		}
+	}
+	for _, e := range s.Errors {
+		check(e)
+	}
+	for _, m := range s.Methods {
+		for _, e := range m.Errors {
+			check(e)
+		}
+	}
 	return verr
 }
 
